@@ -1001,6 +1001,7 @@ func (s *BlockMapSpec) decode(content *hcl.BodyContent, blockLabels []blockLabel
 		return cty.MapValEmpty(s.Nested.impliedType()), diags
 	}
 
+	consistent := true
 	var ctyMap func(map[string]interface{}, int) cty.Value
 	ctyMap = func(raw map[string]interface{}, depth int) cty.Value {
 		vals := make(map[string]cty.Value, len(raw))
@@ -1013,10 +1014,27 @@ func (s *BlockMapSpec) decode(content *hcl.BodyContent, blockLabels []blockLabel
 				vals[k] = ctyMap(v.(map[string]interface{}), depth-1)
 			}
 		}
+		if !consistent || !cty.CanMapVal(vals) {
+			// cty.MapVal would panic. The nested spec may not contain
+			// dynamically-typed attributes, but nested block specs can
+			// still yield values of differing types.
+			consistent = false
+			return cty.DynamicVal
+		}
 		return cty.MapVal(vals)
 	}
 
-	return ctyMap(elems, len(s.LabelNames)), diags
+	ret := ctyMap(elems, len(s.LabelNames))
+	if !consistent {
+		diags = append(diags, &hcl.Diagnostic{
+			Severity: hcl.DiagError,
+			Summary:  fmt.Sprintf("Inconsistent result types in %s blocks", s.TypeName),
+			Detail:   fmt.Sprintf("All %q blocks must produce a result of the same type.", s.TypeName),
+			Subject:  &content.MissingItemRange,
+		})
+		return cty.UnknownVal(s.impliedType().WithoutOptionalAttributesDeep()), diags
+	}
+	return ret, diags
 }
 
 func (s *BlockMapSpec) impliedType() cty.Type {
